@@ -75,6 +75,9 @@ def run(chk, tier, scale=1.0):
     opts = {"weights": {"dupdata": 8, "password": 16, "reply": 22, "hurry": 5, "stray": 2}, "boundary": 0.7, "wellformed_pw": 0.6}
     jobs = pcommon.hist_jobs(b, n, chk.seed, PROPS, opts=opts, tag="c06", want_class=False)
     prun.fold(chk, "C06", vcommon.pmap(prun.hist_worker, jobs, chunksize=4))
+    # directed scripts around a reload that removes (and replaces) a service in the middle of a MORE dialogue
+    for rs in vcommon.pmap(pcommon.script_worker, pcommon.reload_jobs(b, chk.seed, PROPS, int((160 if tier == "quick" else 4000) * scale), tag="rls6")):
+        prun.fold(chk, "C06", rs)
     # service tables around the width of the per-client masks (31, 32 services; and beyond): half of them on an unsanitized build,
     # where a shift past the mask width shows as the query that is never sent instead of aborting the daemon
     import build as buildmod
